@@ -3182,7 +3182,10 @@ class Set(Collection):
     def db_reverse_remove(attr, objects, item):
         for obj in objects:
             setdata = obj._vals_[attr]
-            setdata.discard(item)  # an unflushed local reassignment may already have removed the item
+            if item not in setdata: continue  # an unflushed local reassignment may already have removed the item
+            if setdata.is_fully_loaded and not attr.is_volatile: throw(UnrepeatableReadError,
+                'Phantom object %s disappeared from collection %s.%s' % (safe_repr(item), safe_repr(obj), attr.name))
+            setdata.discard(item)
     def get_m2m_columns(attr, is_reverse=False):
         reverse = attr.reverse
         entity = attr.entity
